@@ -139,3 +139,85 @@ class is_known_glyph:
     returns = Bool
     ensures = {"membership": lambda self, glyph_name, result: iff(result, map_has_set(self._known_glyphs, glyph_name))}
     native = False
+
+
+# ---- native conformance: a reported reuse really lands the donor on the shape ----------------
+# (this is what the summary of picosvg.svg_reuse.affine_between above ASSUMES)
+
+
+def _path_of(pts):
+    return "M" + " L".join(f"{x:g},{y:g}" for x, y in pts) + " Z"
+
+
+def _gen_reuse_case(rng, i=None):
+    import math
+
+    n = rng.randint(3, 6)
+    pts = [(rng.randint(0, 400), rng.randint(0, 400)) for _ in range(n)]
+    k = (i if i is not None else rng.randrange(6)) % 6
+    e, f = rng.randint(-300, 300), rng.randint(-300, 300)
+    if k == 0:
+        m = (1, 0, 0, 1, e, f)
+    elif k == 1:
+        t = math.radians(rng.choice([30, 90, 200]))
+        m = (math.cos(t), math.sin(t), -math.sin(t), math.cos(t), e, f)
+    elif k == 2:
+        m = (-1, 0, 0, 1, e, f)
+    elif k == 3:
+        s = rng.choice([0.5, 2, 3.5])
+        m = (s, 0, 0, s, e, f)
+    elif k == 4:
+        m = (rng.choice([0.5, 2]), 0, 0, rng.choice([0.75, 1.5]), e, f)
+    else:
+        m = (1, 0, 0, 1, 0, 0)
+    tol = rng.choice([0.1, 0.5, 1.0])
+    target = [(m[0] * x + m[2] * y + m[4], m[1] * x + m[3] * y + m[5]) for x, y in pts]
+    # a near-miss: ONE vertex displaced by less / more than the tolerance
+    # (well inside or far outside: in the band just above the tolerance picosvg may still
+    # report a best-fit affine -- known finding K9b, exercised by its recorded witness only)
+    j, d = rng.randrange(n), rng.choice([0, 0, 0.4, 40]) * tol
+    target[j] = (target[j][0] + d, target[j][1])
+    return {"donor": pts, "target": [(round(x, 4), round(y, 4)) for x, y in target], "tol": tol}
+
+
+def _try_reuse_points(donor, target, tol):
+    from nanoemoji.glyph_reuse import GlyphReuseCache
+
+    cache = GlyphReuseCache(tol)
+    cache.add_glyph("donor", _path_of(donor))
+    r = cache.try_reuse(_path_of(target))
+    return None if r is None else tuple(r.transform)
+
+
+def _worst_miss(donor, target, m):
+    return max(max(abs(m[0] * x + m[2] * y + m[4] - tx), abs(m[1] * x + m[3] * y + m[5] - ty)) for (x, y), (tx, ty) in zip(donor, target))
+
+
+def _staircase(dx, dy, n=30):
+    pts, x, y = [(5, 5)], 5, 5
+    for _ in range(n):
+        x += dx
+        pts.append((round(x, 4), y))
+        y += dy
+        pts.append((round(x, 4), y))
+    pts.append((5, y))
+    return pts
+
+
+@contract("nanoemoji.glyph_reuse.GlyphReuseCache.try_reuse", props=["C06", "C19"])
+class try_reuse_lands_within_tolerance:
+    bounded_only = True
+    gen = _gen_reuse_case
+    native_call = _try_reuse_points
+    n_quick = 120
+    n_thorough = 3000
+    ensures = {
+        # C06: "each layer's outline placed within the reuse tolerance of its counterpart"
+        # (+ 1/2: the statement's "plus quantisation" -- the cache works in font units, outlines
+        # are rounded to integers; picosvg also rounds the affine it reports)
+        "reported-affine-maps-donor-onto-shape": lambda donor, target, tol, result: result is None or _worst_miss(donor, target, result) <= tol + 0.5,
+    }
+    known_witnesses = {
+        "K9": lambda: {"donor": _staircase(2, 2), "target": _staircase(2.09, 2), "tol": 0.1},
+        "K9b": lambda: {"donor": [(340, 158), (187, 50), (256, 231), (281, 287)], "target": [(340, 158), (189.5, 50), (256, 231), (281, 287)], "tol": 1.0},
+    }
